@@ -1,5 +1,6 @@
 import FinamModel.Props.TrLinks
 import FinamModel.Props.TrOwners
+import FinamModel.Props.TrCollect
 /-!
   C19 — the translated link enumeration of `Composition.metadata` on the owner table the translated `_map_inputs`
   builds (`Props/TrLinks.lean` and `Props/TrOwners.lean` composed).
@@ -23,6 +24,31 @@ theorem code_links_after_validation (h : Heap) (comps adas : List Nat) (own : Na
     exact hget (own t) t h1 h2 h3
   obtain ⟨L, hl, he, hend, _⟩ := code_links_exact h comps adas owners own hOwned
   exact ⟨owners, L, ho, hl, he, hend⟩
+
+/-- **C19 on the code — the link list of a connected composition, end to end.**  With `self._adapters` computed by the
+    translated `_collect_adapters` and `_input_owners` by the translated `_map_inputs`: when every input at the end of a
+    link from a listed output or a collected adapter belongs to exactly one listed component, the translated enumeration
+    reports exactly the existing links below the listed components' outputs and below every adapter that lies above an
+    input or below an output of a listed component — each adapter once. -/
+theorem code_links_of_collected (h : Heap) (comps : List Nat) (up : Nat → List Nat) (down : Nat → List C03.ATree)
+    (own : Nat → Nat) (hd : C03.Described h comps up down)
+    (hin : ∀ x, (x ∈ comps.flatMap h.outputs ∨
+        ∃ c ∈ comps, (∃ i ∈ h.inputs c, x ∈ up i) ∨ (∃ o ∈ h.outputs c, x ∈ C03.preL (down o))) →
+      ∀ t ∈ h.targets x, h.isAdapter t = false →
+        own t ∈ comps ∧ t ∈ h.inputs (own t) ∧ ∀ c' ∈ comps, t ∈ h.inputs c' → c' = own t) :
+    ∃ ads owners L, Tr.collect_adapters h comps [] = .ok ads ∧ ads.Nodup ∧ Tr.map_inputs h comps = .ok owners ∧
+      Tr.metadata_links h comps ads owners = .ok L ∧
+      L.map (fun l => (l.1.2, l.2.2)) = edges h (sources h comps ads) := by
+  obtain ⟨ads, hc, hn, hm⟩ := C03.code_adapters_collected_once h comps up down hd
+  have hin' : ∀ x ∈ sources h comps ads, ∀ t ∈ h.targets x, h.isAdapter t = false →
+      own t ∈ comps ∧ t ∈ h.inputs (own t) ∧ ∀ c' ∈ comps, t ∈ h.inputs c' → c' = own t := by
+    intro x hx
+    simp only [sources, List.mem_append] at hx
+    rcases hx with hx | hx
+    · exact hin x (.inl hx)
+    · exact hin x (.inr ((hm x).mp hx))
+  obtain ⟨owners, L, ho, hl, he, _⟩ := code_links_after_validation h comps ads own hin'
+  exact ⟨ads, owners, L, hc, hn, ho, hl, he⟩
 
 example : Tr.metadata_links exH [0, 2, 4] [1, 3] [(20, 2), (21, 4)] = .ok
     [((0, 10), (1, 1)), ((1, 1), (2, 20)), ((1, 1), (3, 3)), ((3, 3), (4, 21))] ∧
